@@ -22,18 +22,18 @@ Theorem C14_reachable : forall children fuel h,
   WorldOk (live (fst (run children fuel init h))).
 Proof. exact reach_RegInv. Qed.
 
-(* history independence: over every admissible history (creation, dropping, sweeping, registry queries, assertions,
-   graph re-creation; any index / address reuse) the model answers every assertion like the ideal machine, whose state
+(* history independence: over every admissible history (creation, dropping, sweeping, registry queries, declarations and
+   complete evaluations, assertions, graph re-creation; any index / address reuse) the model answers every assertion like the ideal machine, whose state
    is only (existing instances, their relations), and stays in step with it *)
 Theorem C14_history_independent : forall children fuel h s a,
-  Inv s -> adm_run children fuel s h = true -> no_eval h = true -> Sim s a ->
+  Inv s -> adm_run children fuel s h = true -> no_live h = true -> Sim s a ->
   Sim (fst (run children fuel s h)) (fst (spec_run children fuel a h)) /\
   Forall2 out_rel (snd (run children fuel s h)) (snd (spec_run children fuel a h)).
 Proof. exact run_Sim. Qed.
 
 (* the same with the query results included (fragment: no graph re-creation) *)
 Theorem C14_model_is_spec_on_F : forall children fuel h,
-  adm_run children fuel init h = true -> in_F h = true -> Forall (acyclic_op children fuel) h ->
+  adm_run children fuel init h = true -> in_F h = true -> acyclic children fuel ->
   Forall2 out_eq (snd (run children fuel init h)) (snd (spec_run children fuel a_init h)).
 Proof. exact model_refines_spec. Qed.
 
